@@ -56,8 +56,16 @@ func (et *ExecuteTimeout) Handler(ctx context.Context, name string, args []inter
 	defer cancel()
 	c := make(chan returnValue, 1)
 	go func() {
-		result, err := next(ctx, name, args)
-		c <- returnValue{result, err}
+		var r returnValue
+		defer func() {
+			// the function runs in a goroutine of its own: a panic must become the
+			// call's error, not the end of the process
+			if e := recover(); e != nil {
+				r = returnValue{nil, core.NewPanicError(e)}
+			}
+			c <- r
+		}()
+		r.result, r.err = next(ctx, name, args)
 	}()
 	select {
 	case <-ctx.Done():
